@@ -508,7 +508,10 @@ def gen_case(rng, tier):
         e["rhs"] = str(rng.dyadic(6, 1))
         cons.append(e)
     return {"kind": "cqm", "vars": vars_, "groups": groups, "order": order, "obj": rand_expr(), "cons": cons,
-            "group_first": rng.random() < 0.5}
+            "group_first": rng.random() < 0.5,
+            # tolerances of sample_cqm: defaults, or dyadic values (satisfied iff violation <= atol + rtol*|rhs|)
+            "tol": None if rng.random() < 0.45 else [str(rng.choice([Fraction(0), Fraction(1, 4), Fraction(1, 2), Fraction(1), Fraction(2)])),
+                                                      str(rng.choice([Fraction(0), Fraction(1, 8), Fraction(1, 4), Fraction(1, 2), Fraction(1)]))]}
 
 
 def json_key(x):
@@ -593,11 +596,22 @@ def make_initial_states(c, variables, vt, kw):
             row = [r.choice(vals) for _ in order]
         rows.append(row)
     if rows and order:
+        raw = c.get("init_raw") or c["init_form"] == 'dicts'
         if c["init_form"] == 'dicts':
-            init = [dict(zip(order, row)) for row in rows]
+            # every dict in its own key order (as_samples must re-align by LABEL; rotations and longer
+            # cycles are not their own inverse)
+            init = []
+            for row in rows:
+                perm = list(range(len(order)))
+                if r.random() < 0.5:
+                    k = r.randrange(len(order))
+                    perm = perm[k:] + perm[:k]
+                else:
+                    r.shuffle(perm)
+                init.append({order[i]: row[i] for i in perm})
         else:
             init = (np.array(rows, dtype=np.int8), order)
-        if c.get("init_raw"):
+        if raw:
             # raw samples-like: the vartype is inferred from the values, falling back to the bqm's
             flat = [x for row in rows for x in row]
             kw["initial_states"] = init
@@ -1102,7 +1116,14 @@ def run_cqm(c):
         for g in c["groups"]:
             glabels.append(cqm.add_discrete([labels[i] for i in g], label=f"d{len(glabels)}"))
     T = LabelTable(labels)
-    ss = dimod.ExactCQMSolver().sample_cqm(cqm)
+    tol = c.get("tol")
+    if tol is None:
+        ss = dimod.ExactCQMSolver().sample_cqm(cqm)
+        tol_t = "None"
+    else:
+        atol, rtol = F(tol[0]), F(tol[1])
+        ss = dimod.ExactCQMSolver().sample_cqm(cqm, rtol=float(rtol), atol=float(atol))
+        tol_t = f"(Some ({cq(atol)}, {cq(rtol)}))"
     final = snap(ss)
     py_fail = None
     if len(cqm.variables) and final["vartype"] != 'INTEGER':
@@ -1132,11 +1153,11 @@ def run_cqm(c):
         sn = {'<=': 'Le', '>=': 'Ge', '==': 'Eq'}[cmp_.sense.value]
         cons.append(f"({expr_term(cmp_.lhs)}, {sn}, {cq(F(cmp_.rhs))})")
     feas = clist([cbool(bool(x)) for x in ss.record.is_feasible]) if len(ss) else "[]"
-    coq = (f"(CExactCqm {expr_term(cqm.objective)} {clist(vt_terms)} {gt} {clist(cons)} "
+    coq = (f"(CExactCqm {expr_term(cqm.objective)} {clist(vt_terms)} {gt} {clist(cons)} {tol_t} "
            f"{res_term(T, final)} {feas})")
     feats = {"kind": "cqm", "empty_problem": len(cqm.variables) == 0, "discrete": len(groups),
              "spin": any(v[1] == 'SPIN' for v in vars_), "neg_lb": any(v[1] == 'INTEGER' and v[2] < 0 for v in vars_),
-             "frac_bounds": frac}
+             "frac_bounds": frac, "tol": tol is not None}
     return {"coq": coq, "py_fail": py_fail, "features": feats, "nontrivial": bool(labels),
             "observed": {"final": str(final)[:2000]}}
 
